@@ -98,6 +98,9 @@ func guard(fn, class string, input string, f func()) bool {
 }
 
 func mismatch(kind, fn, class, input, detail string) {
+	if os.Getenv("VERIF_DEBUG") == "all" {
+		fmt.Fprintf(os.Stderr, "mismatch %s %s %s %s\n", kind, fn, class, input)
+	}
 	if capped(kind, fn, class) {
 		return
 	}
@@ -614,6 +617,13 @@ type sigCase struct {
 	source string
 	knownQ []byte // signer's key for reference-made signatures
 	wrongH bool
+
+	// structured leg only
+	tag        string // counter prefix ("" = none)
+	note       string // how the case was constructed (goes into the witness)
+	expectSet  bool   // the construction fixes what the reference recovery must give
+	expectNone bool   // ... nothing (the recovered point is the point at infinity)
+	expectQ    []byte // ... this key
 }
 
 func pickR(g *rand.Rand) (string, *big.Int) {
@@ -769,6 +779,14 @@ func checkSig(c sigCase, other cipher.PubKey) {
 	var h cipher.SHA256
 	copy(h[:], c.h)
 	in := "sig=" + hx(sig[:]) + " hash=" + hx(c.h)
+	if c.note != "" {
+		in += " [" + c.note + "]"
+	}
+	tagCount := func(k string) {
+		if c.tag != "" {
+			r.Count(c.tag+"."+k, 1)
+		}
+	}
 	class := c.source + "/" + c.rc + "/" + c.sc + fmt.Sprintf("/recid=%d", c.recid)
 	r.Eval(1)
 	r.DistinctBytes([]byte(in))
@@ -785,9 +803,17 @@ func checkSig(c sigCase, other cipher.PubKey) {
 		rec, ok = refsecp.Recover(c.h, c.r, c.s, int(c.recid&3))
 	}
 	var recBytes []byte
+	if c.expectSet {
+		// the construction says what the textbook recovery must give; the reference has to agree with it
+		if c.expectNone == ok || (ok && !bytes.Equal(refsecp.Compress(rec), c.expectQ)) {
+			r.Inconclusive("reference self-check failed: recovery differs from the construction for " + in)
+			return
+		}
+	}
 	if ok {
 		recBytes = refsecp.Compress(rec)
-		if !refsecp.Verify(c.h, c.r, c.s, rec) {
+		// (a case whose recovery is fixed by its construction has been cross-checked above)
+		if !c.expectSet && !refsecp.Verify(c.h, c.r, c.s, rec) {
 			r.Inconclusive("reference self-check failed: recovered key does not verify for " + in)
 			return
 		}
@@ -829,8 +855,10 @@ func checkSig(c sigCase, other cipher.PubKey) {
 			mismatch("accepted-invalid", "PubKeyFromSig", "sig:"+class, in, "reference recovers nothing, got "+pk.Hex())
 		case ok:
 			r.Count("recover.agree.key", 1)
+			tagCount("recover.agree.key")
 		default:
 			r.Count("recover.agree.refused", 1)
+			tagCount("recover.agree.refused")
 		}
 	}
 
@@ -848,9 +876,12 @@ func checkSig(c sigCase, other cipher.PubKey) {
 		} else if should {
 			r.Count("verify.accepted", 1)
 			r.Count("verify.accepted:"+fn, 1)
+			tagCount("verify.accepted")
 		} else {
 			r.Count("verify.rejected", 1)
 			r.Count("verify.rejected:"+why, 1)
+			tagCount("verify.rejected")
+			tagCount("verify.rejected:" + why)
 		}
 	}
 	reason := "ok"
@@ -928,6 +959,281 @@ func legSigs() {
 	if guard("VerifyPubKeySignedHash", "pubkey:x>=p", P.Hex(), func() { err = cipher.VerifyPubKeySignedHash(P, cipher.Sig{1}, cipher.SHA256{1}) }) && err == nil {
 		mismatch("accepted-invalid", "VerifyPubKeySignedHash", "pubkey:x>=p", P.Hex(), "")
 	}
+}
+
+// ------------------------------------------------------------------------------------------
+// structured signatures leg
+//
+// Verification and recovery both evaluate a sum of two scalar multiples, u1*G + u2*X. With random
+// scalars the intermediate points of any evaluation strategy (two multiplications and one addition,
+// a shared double-and-add ladder, windowed or interleaved tables) are unrelated; the special cases
+// of the group law (a point added to itself, to its negative, to infinity) never occur. They do occur
+// when everything is a small multiple of G. For small a, b, d take P = d*G and T = a*G + b*P:
+//
+//   verify form:  public key P, nonce point T:   r = T.x mod n, s = r/b, digest m = a*s
+//                 (textbook verification computes u1 = m/s = a, u2 = r/s = b)
+//   recover form: nonce point P, public key T:   r = P.x mod n, s = b*r, digest m = -a*r
+//                 (textbook recovery computes (s/r)*P + (-m/r)*G = b*P + a*G)
+//
+// Both are valid signatures by construction (unless T is infinity, which recovery must refuse). The
+// third class takes signatures made by the reference with nonce 1..16 and small secret keys over
+// random digests. Each case and its neighbours (digest+1, s+1, other recovery ids) goes through the
+// same comparison with the reference as every other signature.
+
+type triple struct {
+	a, b, d *big.Int
+	form    int    // 0 verify form, 1 recover form
+	rel     string // how a was chosen
+}
+
+func scalarName(v *big.Int) string {
+	if v.BitLen() <= 24 {
+		return v.String()
+	}
+	if m := sub(refsecp.N, v); m.Sign() > 0 && m.BitLen() <= 24 {
+		return "n-" + m.String()
+	}
+	return "0x" + v.Text(16)
+}
+
+// windowScalars: values around the usual window / split sizes of windowed multiplication, and the
+// endomorphism constant
+func windowScalars() []*big.Int {
+	var out []*big.Int
+	for _, k := range []uint{4, 5, 6, 7, 8, 13, 14, 15, 127, 128, 129} {
+		out = append(out, sub(pow2(k), bi(1)), pow2(k), add(pow2(k), bi(1)))
+	}
+	out = append(out, lambda, sub(refsecp.N, lambda))
+	return out
+}
+
+func pickSmallScalar(g *rand.Rand, extras []*big.Int) *big.Int {
+	switch x := g.Intn(20); {
+	case x < 14:
+		return bi(int64(1 + g.Intn(40)))
+	case x < 17:
+		return sub(refsecp.N, bi(int64(1+g.Intn(40))))
+	default:
+		return extras[g.Intn(len(extras))]
+	}
+}
+
+func structuredTriples() []triple {
+	var out []triple
+	n := refsecp.N
+	// a chosen so that a*G and b*P coincide up to sign and a power of two: the places where a
+	// two-multiplication or a shared-ladder evaluation meets the special cases of the group law
+	maxB, maxD := int64(r.Pick(16, 40)), int64(r.Pick(12, 40))
+	for b := int64(1); b <= maxB; b++ {
+		for d := int64(1); d <= maxD; d++ {
+			bd := bi(b * d)
+			rels := []struct {
+				name string
+				a    *big.Int
+			}{{"a=b*d", bd}, {"a=-b*d", sub(n, bd)}, {"a=2*b*d", bi(2 * b * d)}}
+			if (b*d)%2 == 0 {
+				rels = append(rels, struct {
+					name string
+					a    *big.Int
+				}{"a=b*d/2", bi(b * d / 2)})
+			}
+			for _, rl := range rels {
+				for form := 0; form < 2; form++ {
+					out = append(out, triple{rl.a, bi(b), bi(d), form, rl.name})
+				}
+			}
+		}
+	}
+	// the small cube and its extensions, sampled
+	extras := windowScalars()
+	nr := r.Pick(1200, 21600)
+	for i := 0; i < nr; i++ {
+		g := r.Rand("structured", i)
+		t := triple{a: pickSmallScalar(g, extras), b: pickSmallScalar(g, extras), form: i % 2, rel: "sampled"}
+		if g.Intn(8) == 0 {
+			t.d = sub(n, bi(int64(1+g.Intn(8))))
+		} else {
+			t.d = bi(int64(1 + g.Intn(40)))
+		}
+		out = append(out, t)
+	}
+	return out
+}
+
+func recidOf(p refsecp.Point) byte {
+	id := byte(p.Y.Bit(0))
+	if p.X.Cmp(refsecp.N) >= 0 {
+		id |= 2
+	}
+	return id
+}
+
+// buildStructured turns a triple into a signature case; ok=false if the form does not exist for it
+func buildStructured(t triple) (sigCase, string, bool) {
+	n := refsecp.N
+	P := refsecp.Mul(t.d, refsecp.G())
+	aG := refsecp.Mul(t.a, refsecp.G())
+	bP := refsecp.Mul(t.b, P)
+	T := refsecp.Add(aG, bP)
+	co := "generic"
+	switch {
+	case T.Inf:
+		co = "sum-is-infinity"
+	case aG.X.Cmp(bP.X) == 0:
+		co = "final-add-is-doubling"
+	}
+	c := sigCase{tag: "structured", expectSet: true}
+	c.note = fmt.Sprintf("a=%s b=%s d=%s %s %s", scalarName(t.a), scalarName(t.b), scalarName(t.d), t.rel, co)
+	var m *big.Int
+	if t.form == 0 {
+		if T.Inf {
+			return c, co, false
+		}
+		c.r = new(big.Int).Mod(T.X, n)
+		if c.r.Sign() == 0 {
+			return c, co, false
+		}
+		c.s = new(big.Int).Mul(c.r, new(big.Int).ModInverse(t.b, n))
+		c.s.Mod(c.s, n)
+		m = new(big.Int).Mul(t.a, c.s)
+		m.Mod(m, n)
+		c.recid = recidOf(T)
+		c.knownQ = refsecp.Compress(P)
+		c.expectQ = c.knownQ
+		c.source, c.rc, c.sc = "structured-verify-form", "r=x(a*G+b*Q)", "s=r/b"
+	} else {
+		c.r = new(big.Int).Mod(P.X, n)
+		if c.r.Sign() == 0 {
+			return c, co, false
+		}
+		c.s = new(big.Int).Mul(c.r, t.b)
+		c.s.Mod(c.s, n)
+		m = new(big.Int).Mul(c.r, t.a)
+		m.Neg(m).Mod(m, n)
+		c.recid = recidOf(P)
+		if T.Inf {
+			c.expectNone = true
+		} else {
+			c.knownQ = refsecp.Compress(T)
+			c.expectQ = c.knownQ
+		}
+		c.source, c.rc, c.sc = "structured-recover-form", "r=x(d*G)", "s=b*r"
+	}
+	c.h = b32(m)
+	return c, co, true
+}
+
+// lowS gives the equivalent signature with s <= n/2 (s negated, parity bit of the recovery id flipped)
+func lowS(c sigCase) sigCase {
+	if c.s.Cmp(refsecp.HalfN) > 0 {
+		c.s = sub(refsecp.N, c.s)
+		c.recid ^= 1
+		c.sc += "(negated)"
+	}
+	return c
+}
+
+// neighbour derives an adjacent input from a valid structured case; nothing is known about it in
+// advance, the reference decides
+func neighbour(c sigCase, kind int) sigCase {
+	nb := c
+	nb.expectSet, nb.expectNone, nb.expectQ = false, false, nil
+	switch kind {
+	case 0:
+		h := add(new(big.Int).SetBytes(c.h), bi(1))
+		nb.h = b32(h.Mod(h, two256))
+		nb.wrongH = true
+		nb.source += "/digest+1"
+	case 1:
+		nb.s = add(c.s, bi(1))
+		nb.sc += "+1"
+		nb.source += "/s+1"
+	case 2:
+		nb.recid ^= 1
+		nb.source += "/recid-parity-flipped"
+	default:
+		nb.recid ^= 2
+		nb.source += "/recid-overflow-bit-flipped"
+	}
+	return nb
+}
+
+var neighbourKinds = []string{"digest+1", "s+1", "recid-parity-flipped", "recid-overflow-bit-flipped"}
+
+func legStructured() {
+	otherRaw, _ := refsecp.PubKey(b32(bi(0xabcdef)))
+	var other cipher.PubKey
+	copy(other[:], otherRaw)
+
+	run := func(i int, c sigCase) {
+		// the choices below must not line up with the order of the case list: scramble the index
+		hsh := uint64(i+1) * 0x9E3779B97F4A7C15
+		hsh ^= hsh >> 29
+		// half of the cases in the form the package's malleability rule accepts
+		if hsh&1 == 0 {
+			c = lowS(c)
+		}
+		checkSig(c, other)
+		k := int(hsh>>1) & 3
+		checkSig(neighbour(c, k), other)
+		r.Count("structured.neighbour:"+neighbourKinds[k], 1)
+		if (hsh>>3)&15 == 0 {
+			// every recovery id and every neighbour for a sixteenth of the cases
+			for j := 0; j < len(neighbourKinds); j++ {
+				if j != k {
+					checkSig(neighbour(c, j), other)
+					r.Count("structured.neighbour:"+neighbourKinds[j], 1)
+				}
+			}
+			both := neighbour(neighbour(c, 2), 3)
+			both.source = c.source + "/recid-both-bits-flipped"
+			checkSig(both, other)
+		}
+	}
+
+	ts := structuredTriples()
+	vf.Parallel(len(ts), runtime.NumCPU(), func(i int) {
+		t := ts[i]
+		c, co, ok := buildStructured(t)
+		if !ok {
+			r.Count("structured.skipped(no such form)", 1)
+			return
+		}
+		r.Count("structured.case:"+c.source, 1)
+		r.Count("structured.coincidence:"+co, 1)
+		r.Count("structured.a:"+t.rel, 1)
+		run(i, c)
+		if i == 0 || i == 3 {
+			r.Sample(map[string]string{"leg": "structured", "construction": c.note, "source": c.source, "r": hx(b32(c.r)), "s": hx(b32(c.s)), "recid": fmt.Sprint(c.recid), "hash": hx(c.h)})
+		}
+	})
+
+	// nonce points that are small multiples of G, small secret keys, random digests
+	nn := r.Pick(640, 11520)
+	vf.Parallel(nn, runtime.NumCPU(), func(i int) {
+		g := r.Rand("small-nonce", i)
+		k := bi(int64(1 + i%16))
+		d := bi(int64(1 + g.Intn(16)))
+		if g.Intn(8) == 0 {
+			d = sub(refsecp.N, d)
+		}
+		h := randBytes(g, 32)
+		sg, ok := refsecp.Sign(h, d, k)
+		if !ok {
+			return
+		}
+		c := sigCase{h: h, r: sg.R, s: sg.S, recid: byte(sg.RecID), tag: "structured", expectSet: true,
+			source: "small-nonce-refsig", rc: "r=x(k*G),k<=16", sc: "s=refsig",
+			note: fmt.Sprintf("nonce=%s seckey=%s", scalarName(k), scalarName(d))}
+		c.knownQ, _ = refsecp.PubKey(b32(d))
+		c.expectQ = c.knownQ
+		r.Count("structured.case:"+c.source, 1)
+		r.Count(fmt.Sprintf("structured.nonce=%d", k.Int64()), 1)
+		run(i, c)
+		if i == 1 {
+			r.Sample(map[string]string{"leg": "structured", "construction": c.note, "source": c.source, "r": hx(b32(c.r)), "s": hx(b32(c.s)), "recid": fmt.Sprint(c.recid), "hash": hx(c.h)})
+		}
+	})
 }
 
 // ------------------------------------------------------------------------------------------
@@ -1169,7 +1475,7 @@ func main() {
 	for _, l := range []struct {
 		name string
 		f    func()
-	}{{"seckeys", legSecKeys}, {"pubkeys", legPubKeys}, {"sign", legSign}, {"sigs", legSigs}, {"ecdh", legECDH}, {"deterministic", legDeterministic}} {
+	}{{"seckeys", legSecKeys}, {"pubkeys", legPubKeys}, {"sign", legSign}, {"sigs", legSigs}, {"structured", legStructured}, {"ecdh", legECDH}, {"deterministic", legDeterministic}} {
 		t0 := time.Now()
 		l.f()
 		r.Extra("wall_s."+l.name, time.Since(t0).Seconds())
@@ -1244,10 +1550,33 @@ func main() {
 	fl("ecdh.agree:boundary", 180, 4500)
 	fl("ecdh.agree:product-has-tiny-y", 200, 4500)
 	fl("sig.r:r=x(point with tiny y)", 60, 2000)
+	// structured leg (sizes are fixed by the tier, only the sampled part depends on the seed)
+	fs := func(k string, quick, thorough int64) {
+		if q {
+			r.Floor(k, quick)
+		} else {
+			r.Floor(k, thorough)
+		}
+	}
+	fs("structured.case:structured-verify-form", 1000, 13500)
+	fs("structured.case:structured-recover-form", 1200, 15000)
+	fs("structured.case:small-nonce-refsig", 600, 11000)
+	fs("structured.coincidence:final-add-is-doubling", 380, 3200)
+	fs("structured.coincidence:sum-is-infinity", 190, 1600)
+	fs("structured.coincidence:generic", 1500, 22000)
+	for _, k := range neighbourKinds {
+		fs("structured.neighbour:"+k, 600, 9000)
+	}
+	fs("structured.recover.agree.key", 4000, 55000)
+	fs("structured.recover.agree.refused", 900, 12000)
+	fs("structured.verify.accepted", 9000, 120000)
+	fs("structured.verify.rejected:high-s", 2000, 28000)
+	fs("structured.verify.rejected:signer-key-but-altered-signature", 3000, 42000)
+	fs("structured.verify.rejected:signer-key-but-wrong-hash", 1000, 14000)
 	fl("det.chains.agree", 290, 5900)
 	r.Floor("det.empty-seed.refused", 1)
 
-	r.Finish("cases are generated from (seed, leg, index): boundary scalars (1, 2, n-1, n/2 and neighbours, lambda, 2^k, 2^k-1, 2^k+1), random scalars of five shapes incl. >= n, public-key encodings by class (valid, off-curve, x>=p, bad prefix, bad length, zero, random), signatures made by the reference and perturbed (s negated, recovery id parity/overflow bit, id>=4, wrong or bit-flipped digest), signatures constructed from boundary r/s/recid values, random 65 bytes, ECDH pairs, deterministic chains; a case is distinct by its input bytes and non-trivial because the reference produced a definite expectation for it",
+	r.Finish("cases are generated from (seed, leg, index): boundary scalars (1, 2, n-1, n/2 and neighbours, lambda, 2^k, 2^k-1, 2^k+1), random scalars of five shapes incl. >= n, public-key encodings by class (valid, off-curve, x>=p, bad prefix, bad length, zero, random), signatures made by the reference and perturbed (s negated, recovery id parity/overflow bit, id>=4, wrong or bit-flipped digest), signatures constructed from boundary r/s/recid values, random 65 bytes, structured signatures in which key, nonce point and both scalars of the verification / recovery sum u1*G + u2*X are small multiples (for small a, b, d incl. n-k and window-size values: Q = d*G, R = a*G + b*Q, r = R.x, s = r/b, m = a*s, and the mirror form with nonce point d*G and key a*G + b*d*G; a enriched with +-b*d, 2*b*d, b*d/2 so that the sum meets doubling, negation and infinity; reference signatures with nonce 1..16 and small keys) each with its neighbours digest+1, s+1 and the other recovery ids, ECDH pairs, deterministic chains; a case is distinct by its input bytes and non-trivial because the reference produced a definite expectation for it",
 		"SignHash draws its nonce from crypto/rand, so the signatures examined differ from run to run; the verdict on each (reference verification and recovery) does not depend on the nonce unless the defect does",
 		"signatures with n/2 < s < 2^255 are accepted by the textbook rule and not covered by the package's top-bit malleability rule; they are generated only at the two boundary values and left unasserted",
 		"bare PubKeyFromSig with recovery byte > 3 is recorded but not asserted (not a textbook input); all three verification functions are required to refuse it",
